@@ -15,16 +15,16 @@ AtomsLen(as, k) == IF k = 0 THEN 0 ELSE as[k].n + AtomsLen(as, k - 1)
 
 (* One call of decode: run over the atoms of the current frame as far as   *)
 (* the buffered bytes allow.  as = atoms, (a, o) = position, av = bytes    *)
-(* buffered, c = bytes consumed so far by this call, x = the amount an     *)
-(* incremental inner decoder takes from an incomplete streamed atom,       *)
-(* bad / at = corruption of this frame ("ok" | "tag" | "len", atom index). *)
+(* buffered, c = bytes consumed so far by this call, bad / at = corruption *)
+(* of this frame ("ok" | "tag" | "len", index of the atom holding it).     *)
 (* Result: r = "some" (frame complete, message emitted) | "none" (more     *)
 (* bytes needed) | "err" (undefined tag seen) | "lost" (corrupted length   *)
-(* seen); (ai, ao) = new position; c = bytes consumed by the call; ux =    *)
-(* the call stopped inside a streamed atom (x was used), avs = bytes that  *)
-(* were buffered at that point.                                            *)
-RECURSIVE Run(_, _, _, _, _, _, _, _)
-Run(as, a, o, av, c, x, bad, at) ==
+(* seen); (ai, ao) = new position; c = bytes consumed by the call.         *)
+(* ux = TRUE: the call stopped inside a streamed atom with avs < rest      *)
+(* bytes buffered; the incremental inner decoder may additionally have     *)
+(* taken any x in 0..avs of them (then ao and c grow by x).                *)
+RECURSIVE Run(_, _, _, _, _, _, _)
+Run(as, a, o, av, c, bad, at) ==
     IF a > Len(as) THEN [r |-> "some", ai |-> 1, ao |-> 0, c |-> c, ux |-> FALSE, avs |-> av]
     ELSE LET t == as[a] IN
          IF bad # "ok" /\ a = at THEN
@@ -35,10 +35,10 @@ Run(as, a, o, av, c, x, bad, at) ==
          ELSE IF t.s THEN
              \* a body streamed into an incremental inner decoder (consume_bounded)
              IF av >= t.n - o
-                 THEN Run(as, a + 1, 0, av - (t.n - o), c + (t.n - o), x, bad, at)
-                 ELSE [r |-> "none", ai |-> a, ao |-> o + x, c |-> c + x, ux |-> TRUE, avs |-> av]
+                 THEN Run(as, a + 1, 0, av - (t.n - o), c + (t.n - o), bad, at)
+                 ELSE [r |-> "none", ai |-> a, ao |-> o, c |-> c, ux |-> TRUE, avs |-> av]
          \* a fixed part: "if src.remaining() < required { return Ok(None) }" - not advanced over
          ELSE IF av >= t.need
-                 THEN Run(as, a + 1, 0, av - t.n, c + t.n, x, bad, at)
+                 THEN Run(as, a + 1, 0, av - t.n, c + t.n, bad, at)
                  ELSE [r |-> "none", ai |-> a, ao |-> 0, c |-> c, ux |-> FALSE, avs |-> av]
 =============================================================================
